@@ -123,7 +123,19 @@ func Float64Bits(r *Rand, special bool) uint64 {
 	}
 }
 
+// Float32Bits returns a float32 bit pattern from the class mix.  NaNs are
+// always quiet: a signalling float32 NaN is quieted by any float32<->float64
+// conversion (reflect.Value.Float, the typed-slice plumbing of the harness
+// itself), which would make the harness, not the library, change the bits.
 func Float32Bits(r *Rand, special bool) uint32 {
+	b := float32Bits(r, special)
+	if b&0x7F800000 == 0x7F800000 && b&0x007FFFFF != 0 {
+		b |= 0x00400000
+	}
+	return b
+}
+
+func float32Bits(r *Rand, special bool) uint32 {
 	for {
 		var f float32
 		switch r.Intn(10) {
